@@ -60,6 +60,14 @@ func runC11(c *an.Ctx) {
 		return
 	}
 	checkValidatorRegisteredOnStart(c, "C11.a")
+	// everything the validator runs inside its recover scope, in this package, is put under the sweeps
+	// (conversion, context, nil-load): a panic there does not crash the node, it silently turns a valid
+	// message into a rejected one (the metrics of an accepted message included)
+	for _, fn := range reachableIn(c, []*ssa.Function{vm}, true) {
+		if fn.Blocks != nil {
+			c.T(fn)
+		}
+	}
 	const ps = "github.com/libp2p/go-libp2p-pubsub"
 	accept, reject, ignore := importedConst(c, "p2p", ps, "ValidationAccept"), importedConst(c, "p2p", ps, "ValidationReject"), importedConst(c, "p2p", ps, "ValidationIgnore")
 	if accept == "" || reject == "" || ignore == "" {
